@@ -179,7 +179,21 @@ def c11_4(c: Ctx) -> None:
 def c11_5(c: Ctx) -> None:
     u = c.unit(MOD, 'EventResult.update')
     g = c.cfg(u)
-    conv = [n for n in g.live_nodes() if n.kind == 'if' and 'isinstance' in U(n.ast.test) and 'BaseException' in U(n.ast.test) and "'result'" in U(n.ast.test)]
+    kw_ = u.node.args.kwarg.arg if u.node.args.kwarg else 'kwargs'
+
+    def is_result_value(e: ast.AST | None) -> bool:
+        # kwargs['result'] / kwargs.get('result') / a local bound once to one of them (None when absent: not an exception either way)
+        e = q.deref(u, e)
+        if isinstance(e, ast.Subscript):
+            return U(e.value) == kw_ and isinstance(e.slice, ast.Constant) and e.slice.value == 'result'
+        if isinstance(e, ast.Call) and call_name(e) == 'get' and isinstance(e.func, ast.Attribute) and U(e.func.value) == kw_:
+            return bool(e.args) and isinstance(e.args[0], ast.Constant) and e.args[0].value == 'result' and (len(e.args) == 1 or (isinstance(e.args[1], ast.Constant) and e.args[1].value is None))
+        return False
+
+    def is_conv_test(t: ast.AST) -> bool:
+        return any(isinstance(x, ast.Call) and call_name(x) == 'isinstance' and len(x.args) == 2 and 'BaseException' in U(x.args[1]) and is_result_value(x.args[0]) for x in ast.walk(t))
+
+    conv = [n for n in g.live_nodes() if n.kind == 'if' and is_conv_test(n.ast.test)]
     arms = [n for n in g.live_nodes() if n.kind == 'if' and U(n.ast.test).replace('"', "'") == "'result' in kwargs"]
     if not conv:
         c.fail(u, 'no conversion of exception-valued results', 'a handler that returns an exception object gets a completed result holding the exception')
@@ -198,7 +212,7 @@ def c11_5(c: Ctx) -> None:
         else:
             c.fail(u, 'result arm reachable before the exception-result conversion', 'an exception returned by a handler is stored as a completed result', node=a.ast, witness=c.path(g.entry, p))
     body = conv[0].ast.body
-    sets = {U(s.targets[0]).replace('"', "'"): U(s.value).replace('"', "'") for s in body if isinstance(s, ast.Assign)}
+    sets = {U(s.targets[0]).replace('"', "'"): ("kwargs['result']" if is_result_value(s.value) else U(s.value).replace('"', "'")) for s in body if isinstance(s, ast.Assign)}
     want = {"kwargs['error']": "kwargs['result']", "kwargs['status']": "'error'", "kwargs['result']": 'None'}
     order = [U(s.targets[0]).replace('"', "'") for s in body if isinstance(s, ast.Assign)]
     if all(sets.get(k) == v for k, v in want.items()) and order.index("kwargs['error']") < order.index("kwargs['result']"):
